@@ -227,7 +227,7 @@ def c09(prop, tier, seed, core):
     m = core.check_progsim_family(prop, tier, seed)
     work = os.path.join(core.WORK, prop)
     known_sigs = [e["signature"] for e in core.known_for(prop)]
-    add_hostile(m, core, prop, work, tier, ["full-ring", "full-ring-cancelable", "deep-scopes", "deep-scopes-cancelable", "wide-scope"], known_sigs)
+    add_hostile(m, core, prop, work, tier, ["full-ring", "full-ring-cancelable", "deep-scopes", "deep-scopes-cancelable", "wide-scope", "deep-backlog", "deep-backlog-cancel"], known_sigs)
     m["rule"] = (core.RULES["progsim"] + " C09 programs: ordinary operations, then one thread floods its 10240-slot command ring (10300+ cheap commands) while "
                  "the collector is held back, issues operations of every kind during the episode, the collector drains, the thread sends again and "
                  "runs a complete fresh trace. The Push hook reads `full` before every push, which gives the exact set of possibly dropped commands; "
@@ -238,6 +238,20 @@ def c09(prop, tier, seed, core):
 
 
 HANDLERS["C09"] = c09
+
+
+def c04(prop, tier, seed, core):
+    m = core.check_progsim_family(prop, tier, seed)
+    work = os.path.join(core.WORK, prop)
+    known_sigs = [e["signature"] for e in core.known_for(prop)]
+    # a cancel parked behind more forced commands than the ring has slots (one process)
+    add_hostile(m, core, prop, work, tier, ["deep-backlog-cancel"], known_sigs)
+    m["rule"] = core.RULES["progsim"] + (" One separate process parks 10300 cancels of a bystander trace and then the cancel of a victim trace behind a full ring "
+                                          "(more forced commands than the ring has slots), lets the collector catch up and finishes the roots: nothing of either trace may be delivered, a later trace must be complete.")
+    return m
+
+
+HANDLERS["C04"] = c04
 
 
 def c16(prop, tier, seed, core):
